@@ -318,14 +318,18 @@ class PageRenderer:
                         val = new_values.get(col_name)
                         last_val = last_values.get(col_name)
 
-                        if val is None:
-                            continue
-
-                        # Check for change
+                        # Check for change (a "-----" divider level has no value
+                        # but still counts as part of the group key).
                         # If a higher level changed (force_render),
                         # we must render this level too.
-                        if str(val) != str(last_val) or force_render:
+                        changed = (val is None) != (last_val is None) or (
+                            val is not None and str(val) != str(last_val)
+                        )
+                        if changed or force_render:
                             force_render = True
+
+                            if val is None:
+                                continue  # divider: nothing to render
 
                             # Find col index for attributes
                             current_col_idx = 0
@@ -346,8 +350,8 @@ class PageRenderer:
                             )
                             elements.extend(spanning)
 
-                    # Update state
-                    last_values.update(new_values)
+                    # Update state (levels without a value must not keep a stale one)
+                    last_values = {col: new_values.get(col) for col in page_by_cols}
 
                 prev_row = page_rel_row
 
